@@ -4,7 +4,7 @@
    implementation differ. *)
 From Coq Require Import Floats.
 From JM Require Import Model.Base Model.Num Model.Utf8 Model.Value Model.JsonText
-     Model.Lexer Model.Parser Model.Slice Model.Functions Model.Interp Model.Api Inst.FloatNum.
+     Model.Lexer Model.Parser Model.Slice Model.Functions Model.Interp Model.Api Model.Cli Inst.FloatNum.
 
 Definition ord_id (m : @obj FloatNum) : @obj FloatNum := m.
 
@@ -165,6 +165,24 @@ Definition tmismatches (cs : list tcase) : list (nat * tobs) :=
   flat_map (fun c =>
               let m := tobs_of (tokenize (tc_expr c)) in
               if tobs_match m (tc_go c) then [] else [(tc_id c, m)]) cs.
+
+(* ---- command-line cases: cmd/jpgo run on (arguments, input channel, input bytes) ---- *)
+Record ccase := CCase {
+  cc_id : nat; cc_args : list bytes; cc_file : bool; cc_input : option bytes;
+  cc_exit : Z; cc_stdout : bytes }.
+(* what the model says the process does: (exit status, standard output); a Go
+   panic ends the process with status 2 and nothing on standard output *)
+Definition cli_obs (c : ccase) : option (Z * bytes) :=
+  match cli_run ord_id (cc_args c) (if cc_file c then FromFile (cc_input c) else FromStdin (cc_input c)) with
+  | Ok r => Some (cli_exit r, cli_stdout r)
+  | Panic => Some (2, [])
+  | _ => None
+  end.
+Definition ccase_ok (c : ccase) : bool :=
+  match cli_obs c with
+  | Some (x, out) => Z.eqb x (cc_exit c) && bytes_eqb out (cc_stdout c)
+  | None => false
+  end.
 
 (* byte strings are written in hexadecimal in generated files *)
 Definition hexv (a : Ascii.ascii) : N :=
